@@ -178,8 +178,12 @@ func gateCases(r *core.Run) {
 				ackProofAt[string(p)] = pa
 			}
 			// one gate call, judged
+			var future time.Duration // added to the block time of the judged call (0: the chain's own clock)
 			call := func(label string, height exported.Height, proof []byte, expect, why string, mutate func(ctx sdkCtx) error) {
 				cctx, _ := b.Ctx().CacheContext()
+				if future != 0 {
+					cctx = cctx.WithBlockTime(cctx.BlockTime().Add(future))
+				}
 				if mutate != nil {
 					if err := mutate(cctx); err != nil {
 						r.Count("gate_setup_failed/"+label, 1)
@@ -326,6 +330,13 @@ func gateCases(r *core.Run) {
 			// the upgrade (re)installs H1, which counts as processing it now (fix f27930c): whether the delay has passed is not pinned here
 			call("stored-height-at-lowered-latest", mk(H1), proofAt[H1], either, "latest-lowered-to-H1-by-upgrade", lower(H1))
 			call("stored-height-below-lowered-latest", mk(H1), proofAt[H1], mustAccept, "latest-lowered-to-H2-by-upgrade", lower(H2))
+			// long after the trusting period (365 days) has run out for every stored consensus state: a proof that does not
+			// prove the commitment under the root stored for its height stays refused, however old that state is
+			future = 366 * 24 * time.Hour
+			call("expired-consensus-state/proof-of-another-height", mk(H1), proofAt[H3], mustReject, "366-days-later", nil)
+			call("expired-consensus-state/proof-of-another-height", mk(H3), proofAt[H1], mustReject, "366-days-later", nil)
+			call("expired-consensus-state/genuine-proof", mk(H2), proofAt[H2], either, "366-days-later", nil)
+			future = 0
 			call("stored-height-at-latest", mk(H3), proofAt[H3], mustAccept, "all-delays-passed", nil)
 			call("stored-height-below-latest", mk(H2), proofAt[H2], mustAccept, "all-delays-passed", nil)
 			// stored processed time must be the block time of the update
